@@ -44,6 +44,7 @@ type result struct {
 	InLen  int
 	Site   string
 	Detail string
+	How    string // how a passing case ended: accepted | rejected | served | error-reply | silent-close
 }
 
 const (
@@ -423,6 +424,10 @@ func (w *wk) callTarget(target string, in []byte, msg *msgModel) (called bool, e
 	return true, errOut
 }
 
+// minimalSeed lists the hand-built smallest payloads (empty frame, empty state, empty ssid): bases
+// for the "huge count in a tiny payload" deviations; an entry point may legitimately refuse them.
+var minimalSeed = map[string]bool{"frame0": true, "state0": true, "state1": true, "ssid0": true}
+
 func usesBroker(target string) bool {
 	switch target {
 	case "DecodeFrame", "DecodeMessage", "DecodeState":
@@ -463,7 +468,10 @@ func (w *wk) runDecoder(cs Case) result {
 	a0 := w.alloc()
 	panicked, pmsg, site := guarded(func() { called, rerr = w.callTarget(cs.Target, buf, msg) })
 	d := w.alloc() - a0
-	res := result{Status: "ok", Alloc: d, InLen: inLen}
+	res := result{Status: "ok", Alloc: d, InLen: inLen, How: "accepted"}
+	if rerr != nil {
+		res.How = "rejected"
+	}
 	switch {
 	case panicked:
 		res.Status, res.Site, res.Detail = "exit", site, "panic: "+pmsg
@@ -472,7 +480,7 @@ func (w *wk) runDecoder(cs Case) result {
 	case d > allowedAlloc(inLen):
 		res.Status = "alloc-ratio"
 		res.Detail = fmt.Sprintf("%d bytes allocated for an input of %d bytes (allowed %d)", d, inLen, allowedAlloc(inLen))
-	case len(cs.Devs) == 0 && cs.Raw == "" && rerr != nil && cs.Target != "Surveyor.Send":
+	case len(cs.Devs) == 0 && cs.Raw == "" && rerr != nil && cs.Target != "Surveyor.Send" && !minimalSeed[cs.Seed]:
 		return result{Status: "harness", Detail: fmt.Sprintf("valid seed %s rejected by %s: %v", cs.Seed, cs.Target, rerr)}
 	}
 	if panicked && usesBroker(cs.Target) && !w.afterPanic(site) {
@@ -608,10 +616,22 @@ func (w *wk) runClient(cs Case) result {
 	case d > allowedAlloc(len(stream)):
 		res.Status = "alloc-ratio"
 		res.Detail = fmt.Sprintf("%d bytes allocated for an input of %d bytes (allowed %d)", d, len(stream), allowedAlloc(len(stream)))
-	case len(cs.Devs) == 0:
-		s, _ := seedByName(cs.Seed)
-		if why := checkValidResponses(s, cl.Drain()); why != "" {
-			return result{Status: "harness", Detail: fmt.Sprintf("valid seed %s is not served: %s", cs.Seed, why)}
+	default:
+		out := cl.Drain()
+		res.How = "served"
+		if len(out) == 0 {
+			res.How = "silent-close"
+		}
+		for _, p := range out {
+			if (p.Type == session.PUBLISH && p.Topic == "emitter/error/") || (p.Type == session.SUBACK && len(p.Codes) > 0 && p.Codes[0] == 0x80) {
+				res.How = "error-reply"
+			}
+		}
+		if len(cs.Devs) == 0 {
+			s, _ := seedByName(cs.Seed)
+			if why := checkValidResponses(s, out); why != "" {
+				return result{Status: "harness", Detail: fmt.Sprintf("valid seed %s is not served: %s", cs.Seed, why)}
+			}
 		}
 	}
 	return res
@@ -961,7 +981,10 @@ func worker(c *core.Ctx, args []string) {
 		if len(r.Detail) > 1500 {
 			r.Detail = r.Detail[:1500] + "…"
 		}
-		w.jprintf("E %d %s %d %d %s %s %d\n", n, r.Status, r.Alloc, r.InLen, b64(r.Site), b64(r.Detail), micros)
+		if r.How == "" {
+			r.How = "-"
+		}
+		w.jprintf("E %d %s %d %d %s %s %d %s\n", n, r.Status, r.Alloc, r.InLen, b64(r.Site), b64(r.Detail), micros, r.How)
 		if strings.Contains(r.Detail, "[restart]") || r.Alloc > 100<<20 || (r.Status == "exit" && !w.probe(cs)) {
 			w.jprintf("R %d\n", n)
 			return
